@@ -127,8 +127,24 @@ void io_set_root(const std::string &root) {
 }
 const std::string &io_root() { return g_root_noslash; }
 
+static uint64_t g_perturb = 0, g_pcalls = 0, g_pdone = 0;
+static uint64_t pmix(uint64_t x) { x ^= x >> 33; x *= 0xff51afd7ed558ccdULL; x ^= x >> 33; x *= 0xc4ceb9fe1a85ec53ULL; x ^= x >> 33; return x; }
+// 0 = leave the call alone, 1 = EINTR, 2 = shorten *n (only when *n > 1)
+static int perturb_decision(size_t *n) {
+  if (!g_perturb) return 0;
+  uint64_t h = pmix(g_perturb + 0x9e3779b97f4a7c15ULL * ++g_pcalls);
+  unsigned c = (unsigned)(h & 15);
+  if (c == 0) { g_pdone++; return 1; }
+  if (c <= 4 && *n > 1) { *n = 1 + (size_t)((h >> 8) % (*n - 1)); g_pdone++; return 2; }
+  return 0;
+}
+
+void io_set_perturb(uint64_t seed) { Guard g; g_perturb = seed; g_pcalls = 0; }
+uint64_t io_perturbed() { return g_pdone; }
+
 void io_reset() {
   Guard g;
+  g_perturb = 0; g_pcalls = 0; g_pdone = 0;
   g_trace.clear();
   g_trace.shrink_to_fit();
   g_cnt = IoCounters();
@@ -272,7 +288,9 @@ static ssize_t do_read(IoKind kind, int fd, void *buf, size_t n, off_t off) {
   bool sw;
   int err = fault_decision(kind, rel, &sw);
   ssize_t rc;
+  int pd = err ? 0 : perturb_decision(&n);
   if (err) { rc = -1; errno = err; }
+  else if (pd == 1) { rc = -1; errno = EINTR; }
   else rc = kind == IO_READ ? __real_read(fd, buf, n) : __real_pread(fd, buf, n, off);
   int saved = errno;
   if (g_record && g_record_reads) {
@@ -309,7 +327,10 @@ ssize_t __wrap_write(int fd, const void *buf, size_t n) {
   }
   ssize_t rc;
   bool injected = err != 0;
-  if (err && sw && n >= 2) {
+  int pd = err ? 0 : perturb_decision(&n);
+  if (pd == 1) {
+    rc = -1; errno = EINTR;
+  } else if (err && sw && n >= 2) {
     rc = __real_write(fd, buf, n / 2);
     g_fail_next_write[fd] = true;
   } else if (err) {
